@@ -243,6 +243,14 @@ class ExprMixin:
     def ex_Subscript(self, n, st, frame, out):
         recv, st = self.eval(n.value, st, frame, out)
         if isinstance(n.slice, ast.Slice):
+            sl = n.slice
+            if sl.lower is None and sl.upper is None and sl.step is None and recv and not any(is_const(t) or tag(t) in ("param", "strop", "cat") for t in recv):
+                # `x[:]` of a container is a fresh copy: a tracked list, like list(x)
+                el, st = self.elements(recv, st, frame, n)
+                lid = ("list", (frame.func.qual, n.lineno, n.col_offset, frame.ctx))
+                ls = dict(st.lists)
+                ls[lid] = el
+                return V(lid), st.set(lists=ls)
             return frozenset(("slice", t) for t in recv), st
         key, st = self.eval(n.slice, st, frame, out)
         return self.getitem(recv, key, st, n), st
